@@ -543,7 +543,7 @@ func Run(t *testing.T, sc *Scenario, emit func(evs []vh.Event, stats map[string]
 			}
 		}
 		for c, cancel := range r.cbCancel {
-			_ = c
+			rec.Log("CtxEnd", "c", c)
 			cancel()
 		}
 		r.doStep(Step{A: "drain"})
